@@ -50,6 +50,8 @@ def leaves(B, kind, cplx):
         out["diag2"] = (ift.DiagonalOperator(field_of(dom, e)), np.diag(e))
         m = V("m", (n, n))
         out["mat"] = (ift.MatrixProductOperator(dom, m), m)
+        g = V("g", (n, n))
+        out["dense"] = (_Dense(dom, g), g)
         bun = ift.MatrixProductOperator(dom, m)
         out["sand"] = (ift.SandwichOperator.make(bun, ift.DiagonalOperator(field_of(dom, d))),
                        np.conjugate(m).T @ np.diag(d) @ m)
@@ -90,8 +92,31 @@ def leaves(B, kind, cplx):
     return dom, out
 
 
+class _Dense(ift.LinearOperator):
+    """harness leaf: invertible dense 2x2 operator with all four modes (the
+    library has no non-commuting leaf that advertises the inverse modes)"""
+
+    def __init__(self, dom, mat):
+        self._domain = self._target = ift.DomainTuple.make(dom)
+        self._capability = self._all_ops
+        self._m = mat
+
+    def apply(self, x, mode):
+        self._check_input(x, mode)
+        m = self._m
+        if mode & (self.ADJOINT_TIMES | self.ADJOINT_INVERSE_TIMES):
+            m = np.conjugate(m).T
+        v = x.val.val
+        if mode & (self.INVERSE_TIMES | self.ADJOINT_INVERSE_TIMES):
+            dt = m[0, 0] * m[1, 1] - m[0, 1] * m[1, 0]
+            r = np.array([(m[1, 1] * v[0] - m[0, 1] * v[1]) / dt, (m[0, 0] * v[1] - m[1, 0] * v[0]) / dt])
+        else:
+            r = m @ v
+        return field_of(self._domain, r)
+
+
 LEAF_NAMES = {
-    "single": ["scal", "scal2", "null", "diag", "diag2", "mat", "sand"],
+    "single": ["scal", "scal2", "null", "diag", "diag2", "mat", "sand", "dense"],
     "prod": ["scal", "null", "diag", "pdiag0", "pdiag1", "pmat0", "pmat1"],
     "prod22": ["scal", "diag", "pdiag0", "pdiag1", "pmat0", "pmat1"],
     "multi": ["scal", "null", "blk", "blk2", "blkp", "mdiag"],
@@ -112,33 +137,48 @@ ADJ_SWAP = {1: 2, 2: 1, 4: 8, 8: 4}
 INV_SWAP = {1: 4, 4: 1, 2: 8, 8: 2}
 
 
-def build(tree, lv, scal):
-    """tree -> (operator, (M, inverted), rule capability)
+def _recip_diag(M):
+    out = np.zeros(M.shape, dtype=object) if M.dtype == object else np.zeros(M.shape, dtype=M.dtype)
+    for i in range(M.shape[0]):
+        out[i, i] = 1 / M[i, i]
+    return out
 
-    The oracle value (M, inverted) denotes the matrix M, or M^-1 if inverted."""
+
+def _isdiag_leaf(name):
+    return name not in ("mat", "sand", "pmat0", "pmat1", "dense", "null")
+
+
+def build(tree, lv, scal):
+    """tree -> (operator, (M, inverted, isdiag), rule capability)
+
+    The oracle value denotes the matrix M, or M^-1 if ``inverted``.  Inverses of
+    diagonal matrices are formed explicitly (entry-wise reciprocal), so they can
+    take part in further sums and products."""
     if isinstance(tree, str):
         op, M = lv[tree]
-        return op, (M, False), op.capability
+        return op, (M, False, _isdiag_leaf(tree)), op.capability
     kind = tree[0]
     if kind in UNARY:
-        op, (M, iv), cap = build(tree[1], lv, scal)
+        op, (M, iv, dg), cap = build(tree[1], lv, scal)
         if kind == "adj":
-            return op.adjoint, (np.conjugate(M).T, iv), _perm_bits(cap, ADJ_SWAP)
+            return op.adjoint, (np.conjugate(M).T, iv, dg), _perm_bits(cap, ADJ_SWAP)
         if kind == "inv":
-            return op.inverse, (M, not iv), _perm_bits(cap, INV_SWAP)
+            if dg and not iv:
+                return op.inverse, (_recip_diag(M), False, True), _perm_bits(cap, INV_SWAP)
+            return op.inverse, (M, not iv, dg), _perm_bits(cap, INV_SWAP)
         if kind == "neg":
-            return -op, (-M, iv), cap
+            return -op, (-M, iv, dg), cap
         if kind == "scale":
-            return op.scale(scal), ((M / scal) if iv else (scal * M), iv), cap
-    a, (Ma, ia), ca = build(tree[1], lv, scal)
-    b, (Mb, ib), cb = build(tree[2], lv, scal)
-    assert not (ia or ib), "oracle cannot combine explicit inverses"
+            return op.scale(scal), ((M / scal) if iv else (scal * M), iv, dg), cap
+    a, (Ma, ia, da), ca = build(tree[1], lv, scal)
+    b, (Mb, ib, db), cb = build(tree[2], lv, scal)
+    assert not (ia or ib), "oracle cannot combine explicit inverses of non-diagonal matrices"
     if kind == "add":
-        return a + b, (Ma + Mb, False), ca & cb & 3
+        return a + b, (Ma + Mb, False, da and db), ca & cb & 3
     if kind == "sub":
-        return a - b, (Ma - Mb, False), ca & cb & 3
+        return a - b, (Ma - Mb, False, da and db), ca & cb & 3
     if kind == "chain":
-        return a @ b, (Ma @ Mb, False), ca & cb
+        return a @ b, (Ma @ Mb, False, da and db), ca & cb
     raise ValueError(kind)
 
 
@@ -190,7 +230,7 @@ def h_tree(B, tree, kind, cplx):
         dom, lv = leaves(B, kind, cplx)
         scal = B.values("c", (), cplx)
         n = dom.size
-        op, (M, inverted), rulecap = build(tree, lv, scal)
+        op, (M, inverted, _dg), rulecap = build(tree, lv, scal)
         x = B.values("x", (n,), cplx)
         xf = unflat(dom, x)
         cap = op.capability
@@ -231,16 +271,24 @@ def unflat(dom, x):
     return field_of(dom, x.reshape(dom.shape))
 
 
-def _inverted(tree):
-    """does the oracle value of this tree carry the 'inverted' flag?"""
+def _flags(tree):
+    """(inverted, isdiag) of the oracle value of a tree"""
     if isinstance(tree, str):
-        return False
+        return False, _isdiag_leaf(tree)
     k = tree[0]
     if k == "inv":
-        return not _inverted(tree[1])
+        iv, dg = _flags(tree[1])
+        if dg and not iv:
+            return False, True
+        return (not iv), dg
     if k in ("adj", "neg", "scale"):
-        return _inverted(tree[1])
-    return False
+        return _flags(tree[1])
+    fl = [_flags(t) for t in tree[1:]]
+    return False, all(d for _, d in fl)
+
+
+def _inverted(tree):
+    return _flags(tree)[0]
 
 
 def all_trees(kind, depth):
@@ -301,6 +349,16 @@ def scenarios(tier, seed):
               ["chain", "blkp", "blkp"], ["chain", "blk2", "mdiag"], ["chain", "blk2", "blk"]):
         for cplx in (False, True):
             out.append(("tree", {"tree": t, "kind": "multi", "cplx": cplx}))
+    # every mode-flip of a diagonal met by each merging routine (_scale, _add,
+    # _combine_prod, _combine_sum) and non-commuting chains under every flip
+    for fl in ("adj", "inv", "adjinv"):
+        w = lambda t: ["adj", ["inv", t]] if fl == "adjinv" else [fl, t]
+        fam = [["chain", w("diag"), "diag2"], ["chain", "diag2", w("diag")], ["add", w("diag"), "diag2"],
+               ["sub", "diag2", w("diag")], ["scale", w("diag")], ["add", w("diag"), "scal"],
+               ["sub", "scal", w("diag")], ["chain", "scal", w("diag")],
+               w(["chain", "dense", "diag"]), w(["chain", "diag", ["chain", "dense", "scal"]]),
+               w(["chain", ["adj", "dense"], ["inv", "diag2"]])]
+        special += fam
     for t in special:
         assert _oracle_ok(t), t
         for cplx in (False, True):
